@@ -500,6 +500,79 @@ func TestVerifC07KeyIndependence(t *testing.T) {
 	})
 }
 
+// The same clause at scale: N calls on N distinct keys are all inside their functions at the same
+// time (each function parks on one shared gate after reporting that it started).  Any scheme that
+// maps keys onto fewer than about N*N/2 shared locks (striping, sharding by hash, one lock per
+// prefix) makes two of them wait for each other and at least one function never starts.
+func TestVerifC07ManyKeysInFlight(t *testing.T) {
+	st := verifkit.New("many-keys")
+	defer st.Flush()
+	rapid.Check(t, func(t *rapid.T) {
+		st.Eval()
+		useSF := rapid.Bool().Draw(t, "singleFlight")
+		n := rapid.IntRange(20, 400).Draw(t, "keys")
+		style := rapid.IntRange(0, 3).Draw(t, "keyStyle")
+		salt := rapid.StringMatching(`[a-z#:/]{0,6}`).Draw(t, "salt")
+		var do func(key string, fn func() (any, error)) (any, error)
+		if useSF {
+			do = syncx.NewSingleFlight().Do
+		} else {
+			do = syncx.NewLockedCalls().Do
+		}
+		key := func(i int) string {
+			switch style {
+			case 0:
+				return fmt.Sprintf("%s%d", salt, i)
+			case 1:
+				return fmt.Sprintf("%d%s", i, salt)
+			case 2:
+				return fmt.Sprintf("%s%08x", salt, uint32(i)*2654435761)
+			default:
+				return strings.Repeat(salt+"k", i%5) + fmt.Sprint(i)
+			}
+		}
+		gate := make(chan struct{})
+		started := make(chan int, n)
+		var wg sync.WaitGroup
+		vals := make([]any, n)
+		for i := 0; i < n; i++ {
+			wg.Add(1)
+			go func(i int) {
+				defer wg.Done()
+				vals[i], _ = do(key(i), func() (any, error) { started <- i; <-gate; return i, nil })
+			}(i)
+		}
+		seen := map[int]bool{}
+		deadline := time.After(15 * time.Second)
+		for len(seen) < n {
+			select {
+			case i := <-started:
+				seen[i] = true
+			case <-deadline:
+				var missing []string
+				for i := 0; i < n && len(missing) < 5; i++ {
+					if !seen[i] {
+						missing = append(missing, key(i))
+					}
+				}
+				close(gate)
+				t.Fatalf("C07 violated (calls on different keys never wait for each other): with %d distinct keys in flight, "+
+					"%d functions did not start within 15 s while the others were parked, e.g. keys %q (singleFlight=%v)",
+					n, n-len(seen), missing, useSF)
+			}
+		}
+		close(gate)
+		wg.Wait()
+		for i := 0; i < n; i++ {
+			if vals[i] != i {
+				t.Fatalf("C07 violated: call on key %q returned %v, its own function returned %d (singleFlight=%v)", key(i), vals[i], i, useSF)
+			}
+		}
+		st.Class(fmt.Sprintf("keys>=%d", n/100*100))
+		st.NonTrivial(fmt.Sprintf("sf=%v n=%d style=%d salt=%q", useSF, n, style, salt))
+	})
+}
+
 // ---------------------------------------------------------------- ResourceManager
 
 type res struct{ id int64 }
